@@ -9,8 +9,8 @@ Dsts == {"4326", "3857", "32633", "3035"}
 CoordNames == {"spatial_ref", "crs", "albers_conical_equal_area"}
 Posts == {"none", "arith", "astype"}
 Cases(s) == {x \in {[src |-> s, dst |-> d, container |-> k, backend |-> b, how |-> h, rot |-> r, coord |-> n, post |-> p] :
-               d \in Dsts, k \in {"DataArray", "Dataset"}, b \in {"numpy", "dask"}, h \in {"geobox", "crs"}, r \in BOOLEAN, n \in CoordNames, p \in Posts} :
-               ~(x.rot /\ x.backend = "dask" /\ x.how = "crs")}
+               d \in Dsts, k \in {"DataArray", "Dataset"}, b \in {"numpy", "dask"}, h \in {"geobox", "crs", "crs+resolution", "crs+tight_anchor"}, r \in BOOLEAN, n \in CoordNames, p \in Posts} :
+               ~(x.rot /\ x.backend = "dask" /\ x.how # "geobox")}
 VARIABLE c
 Init == c \in {[k |-> s] : s \in Srcs}
 Next == "k" \in DOMAIN c /\ c' \in Cases(c.k) /\ Emit(c')
